@@ -62,8 +62,9 @@ FROZEN_FP = {
     ("GTOeval_sph_drv", 1): {"GTOcontract_flapl0", "GTOcontract_flapl1"},
 }
 
-# Named single-symbol exceptions: (function, variable) -> reason.  Only the shape the reason
-# describes is excused (see sa.omp.Region._classify).
+# The one excused shape (sa.omp.Region._flag_normalisation, matched structurally, not by name): a shared scalar
+# flag v stored with the literal that agrees with the branch of `if (v)` / `switch (v)` being executed.
+# Today's two instances, with the reason recorded for them:
 EXCEPTIONS = {
     ("multiply_atc_integrals", "fwd"):
         "by-value parameter normalised to 0/1 under `if (fwd)`: every thread stores the constant "
@@ -106,6 +107,17 @@ def build(chk):
         p for p in tree.glob("ciderpress/**/*.py") if "/tests/" not in p and "/gpaw/" not in p})
     table, nsites = omp.read_py_callbacks(tree, pys)
     chk.count("python files scanned for callbacks", len(pys))
+    # rows of the frozen table that the call-site reader no longer finds (the Python side was restructured in
+    # a way it does not read) fall back to the frozen targets that still exist: the C analysis goes on
+    read_rows = {(drv, pos) for (lib, drv, pos) in table}
+    for (drv, pos), want in FROZEN_FP.items():
+        if (drv, pos) not in read_rows:
+            lib = "libcider" if drv in defined else "libcgto"
+            keep = {("libcider", n) for n in want if n in defined}
+            if keep:
+                table[(lib, drv, pos)] = keep
+                chk.note("fp-table", "%s arg %d" % (drv, pos),
+                         "no Python call site read for this row; using the frozen targets %s" % sorted(n for _, n in keep))
     seeds = {}
     for (lib, drv, pos), targets in table.items():
         if drv in defined:
@@ -121,10 +133,9 @@ def rule_fp(chk, prog, table, defined):
     for key, want in sorted(FROZEN_FP.items()):
         got = read.get(key)
         if not got:
-            raise core.AnalysisError(
-                "function-pointer table: no Python call site passes a callback as argument %d of %s any "
-                "more (expected %s); the call-site reader or the table must be updated" % (
-                    key[1], key[0], sorted(want)))
+            chk.note("fp-table", "%s arg %d" % key, "row vanished and none of its frozen targets %s is defined "
+                                                    "any more" % sorted(want))
+            continue
         if not want <= got:
             chk.note("fp-table", "%s arg %d" % key, "frozen targets %s no longer passed (now %s)" % (
                 sorted(want - got), sorted(got)))
@@ -214,9 +225,6 @@ def rule_regions(chk, prog, tus):
             raise core.AnalysisError("anchored file %s has no parallel region any more" % a)
     chk.extra["regions_per_file"] = dict(sorted(per_file.items()))
     used_exc = report_regions(chk, regions)
-    for key, why in EXCEPTIONS.items():
-        if key not in used_exc:
-            chk.note("shared-store", "%s:%s" % key, "named exception no longer matches any store")
     chk.count("parallel regions", len(regions))
     chk.count("worksharing loops", sum(len(r.ws_loops) for r in regions))
     chk.count("stores and output arguments classified", sum(len(r.items) for r in regions))
@@ -253,7 +261,7 @@ def report_regions(chk, regions, tag=""):
                 if it.cls == "exception":
                     used_exc.add((r.func.name, it.base))
                     chk.note("shared-store", "%s:%d" % (rel, it.line),
-                             "named exception %s:%s -- %s" % (r.func.name, it.base, it.why))
+                             "benign flag normalisation %s:%s -- %s" % (r.func.name, it.base, it.why))
                 chk.ok("shared-store", inst, detail="%s: %s" % (it.cls, it.why))
         # an output argument passed in a *shared pointer variable* that the region itself overwrites is the
         # same defect as the store to that variable: report it once
@@ -268,20 +276,20 @@ def report_regions(chk, regions, tag=""):
                 construct = "callee %s writes global %s" % (first.callee, base)
                 expl = "the callee stores to a global variable from every thread"
             elif kind == "call":
-                construct = "output argument %s of %s -> %s" % (base, first.callee, desc)
+                construct = "output argument of %s -> %s" % (first.callee, desc)
                 expl = ("the callee %s writes through this argument, and the address it writes does not "
                         "depend on any thread-partitioned argument" % first.callee)
             else:
-                construct = "store through %s -> %s" % (base, desc)
+                construct = "unpartitioned store to %s" % desc
                 expl = "the address does not depend on a worksharing induction variable or on the thread id"
             chk.violation(
                 "shared-store", rel, r.func.name, construct, first.line,
-                "parallel region at line %d%s (%s): %s target shared memory (%s); %s, the statement is not inside "
+                "parallel region at line %d%s (%s): %s (through `%s`) target shared memory (%s); %s, the statement is not inside "
                 "critical/atomic/single/master and the target is neither private nor a reduction variable => "
                 "several threads write the same location (definite write-write race; expected: a worksharing "
                 "loop whose induction variable selects the element, a per-thread buffer, or a reduction)" % (
                     r.line, (" " + tag + ", compiled only in that build configuration") if tag else "",
-                    r.pragma.text, stmts, desc, expl),
+                    r.pragma.text, stmts, base, desc, expl),
                 instance="%s: %s" % (rid, construct))
         chk.ok("region", rid, detail="%s; stores/out-args: %s; %d worksharing loop(s)" % (
             r.pragma.text, ", ".join("%d %s" % (v, k) for k, v in sorted(counts.items())), len(r.ws_loops)))
@@ -332,7 +340,8 @@ def report_regions(chk, regions, tag=""):
             if ok:
                 chk.ok("block-clip", desc, detail="every value path is clipped against the total")
             else:
-                chk.violation("block-clip", rel, r.func.name, desc.split(": ", 1)[1], r.tu.line_of(node),
+                chk.violation("block-clip", rel, r.func.name, "block bound of a ceil split by the thread count not "
+                              "clipped against the total", r.tu.line_of(node),
                               "%s: the value `%s` has a path on which the block keeps its full length without any "
                               "comparison against the total, but with a ceil split the block of a thread other than "
                               "the last already sticks out whenever (T-1)*ceil(N/T) > N (e.g. N=5, T=4; N=130, T=16): "
@@ -434,15 +443,13 @@ def analyse(chk):
     base_lines = chk.guard(rule_regions, prog, tus)
     if base_lines is not None:
         chk.guard(rule_mkl_variant, base_lines)
-    chk.floor("region", 100, "106 parallel regions on the pinned tree (81 parallel + 25 parallel for)")
-    chk.floor("shared-store", 300, "346 stores/output arguments reaching shared memory on the pinned tree")
-    chk.floor("ws-uniform", 105, "88 omp for + 25 parallel for + 1 single + 2 barriers")
-    chk.floor("tid-scratch", 1, "contract_grad_terms_parallel: tmp_priv")
-    chk.floor("block-clip", 6, "6 SDMXcontract_ao_to_bas* routines + contract_grad_terms_parallel")
-    chk.floor("barrier-order", 6, "10 ordered dependences on the pinned tree (contract_grad_terms_parallel, "
-                                  "compute_num_spline_contribs, weight_symm_gpts, cider_coefs_gto_*)")
-    chk.floor("fp-table", 11, "7 Python rows + 6 indirect C call sites")
-    chk.floor("callback-global", 14, "16 libcider callbacks passed to SDMXeval_*_loop / GTOeval_sph_drv")
+    chk.floor("region", 50, "108 parallel regions on the pinned tree; floor = half, a floor only guards against a vacuous pass")
+    chk.floor("shared-store", 170, "350 stores/output arguments reaching shared memory on the pinned tree")
+    chk.floor("ws-uniform", 55, "119 worksharing/single/barrier constructs on the pinned tree")
+    chk.floor("block-clip", 3, "7 ceil-split block bounds on the pinned tree")
+    chk.floor("barrier-order", 4, "10 dependences between differently partitioned accesses on the pinned tree")
+    chk.floor("fp-table", 6, "7 Python rows + 6 indirect C call sites on the pinned tree")
+    chk.floor("callback-global", 8, "16 libcider callbacks on the pinned tree")
     chk.extra["named_exceptions"] = {"%s:%s" % k: v for k, v in EXCEPTIONS.items()}
     chk.extra["extern_output_argument_table"] = {k: v for k, v in sorted(omp.EXTERN_WRITES.items()) if v}
     chk.extra["frozen_function_pointer_table"] = {"%s arg %d" % k: sorted(v) for k, v in FROZEN_FP.items()}
